@@ -551,6 +551,7 @@ func replay(c *vh.Ctx, body, comments []string) (bool, string) {
 	var ch []hdr
 	var canon []hdr
 	var clcalls []clCall
+	var vfrqs []vfrQ
 	var drv *vh.Driver
 	if c.Driver != "" {
 		drv, _ = vh.StartDriver(c.Driver)
@@ -583,6 +584,23 @@ func replay(c *vh.Ctx, body, comments []string) (bool, string) {
 		case "K":
 			n := nums(f[1:])
 			canon = append(canon, hdr{n[0], n[1], n[2], n[3], n[4], n[5]})
+			continue
+		case "KCLEAR":
+			canon = nil
+			continue
+		case "F":
+			parts := strings.Split(l, "|")
+			rn := nums(strings.Fields(parts[0])[1:])
+			if len(rn) == 1 {
+				q := vfrQ{r: rn[0]}
+				for _, part := range parts[1:] {
+					n := nums(strings.Fields(part))
+					if len(n) == 6 {
+						q.parents = append(q.parents, hdr{n[0], n[1], n[2], n[3], n[4], n[5]})
+					}
+				}
+				vfrqs = append(vfrqs, q)
+			}
 			continue
 		case "CH", "CB":
 			var call clCall
@@ -633,6 +651,12 @@ func replay(c *vh.Ctx, body, comments []string) (bool, string) {
 					msgs = append(msgs, "go="+goOut+" lean="+m)
 				}
 			}
+		}
+	}
+	if len(vfrqs) > 0 {
+		if w := runVfrCase(drv, t, canon, vfrqs); w != "" {
+			fails = true
+			msgs = append(msgs, w)
 		}
 	}
 	if len(clcalls) > 0 {
